@@ -20,3 +20,12 @@ package kv
 //@   ensures result1 == nil ==> result0 != nil && fresh(result0)
 //@   ensures result1 == nil ==> forall k []byte :: inDom(result0, string(k)) <==> (inKeys(keys, k) && gHas(recv, k))
 //@   ensures result1 == nil ==> forall k []byte :: inDom(result0, string(k)) ==> result0[string(k)].Value == gVal(recv, k)
+
+// Key flags fit the trees' flag storage: every flag operation keeps the flag word below 2^14 (the red-black tree keeps
+// 14 bits of it, the radix tree 15), so no flag is silently dropped by either buffer. (C08)
+//@ func ApplyFlagsOps
+//@   prop C08
+//@   may-panic
+//@   requires origin < 16384
+//@   loop 1 invariant fits: origin < 16384
+//@   ensures fits: result < 16384
